@@ -10,5 +10,5 @@ def build(tier):
                 obs.append(trees.tree_ob("C13", sk, "tree", dict(base, recursive=rec, auto_ex=ae), timeout=400 if quick else 2400))
     # C13.b output file names: dots, dashes, three directory levels, every output location, prefix, separator
     obs.append(trees.tree_ob("C13.b", "S3", "tree", dict(sep2=False, ext_t=False, ext_m=False, excl_root=False, recursive=True, auto_ex=False),
-                             fixrev=True, timeout=400 if quick else 2400, note=" (output locations x prefix)"))
+                             fixrev=True, fixexcl=quick, timeout=400 if quick else 2400, note=" (output locations x prefix)"))
     return dict(obligations=obs, explanation="x", assumptions=[])
